@@ -5,7 +5,7 @@ Line-protocol driver for C09. Ops: `init n` | `bal a t total free` | `full (a t 
 | `trade i t price` | `l1 i te tl bp ba ap aa` | `l1e i te tl` (empty top of book) | `ord i c id t filled` (open report, quantity 10)
 | `cancel i c` (a cancel request for the order is sent: `record_in_flight_cancel`)
 | `ordx i c <Cancelled|Filled|Expired|Failed> t` (TERMINAL order report; `t` is the exchange time of a
-`Cancelled` report, carried for the record only: the code never reads it)
+`Cancelled` report: the code never reads it, the SPEC does - a Cancelled report is a timestamped message about the order)
 | `acct (B a t total free | O i c id t filled | X i c kind t)*` (ONE full account snapshot carrying
 balances AND order reports — open and terminal —, applied item by item: balances first, then the
 orders in the order given, each in its own `InstrumentAccountSnapshot`).
@@ -55,7 +55,7 @@ inductive POp where
   | l1 (i : Nat) (te : Int) (x : L1)
   | ord (i c : Nat) (o : Open)
   | cancel (i c : Nat)
-  | ordx (i c : Nat) (k : Inactive)
+  | ordx (i c : Nat) (k : Inactive) (t : Int)
   | acct (bals : List (Nat × Msg Bal)) (ords : List (Nat × Snap))
 
 def parseInactive : String → Option Inactive
@@ -119,7 +119,7 @@ def parseOp : List String → Option POp
     | _, _ => none
   | ["ordx", i, c, k, t] =>
     match i.toNat?, c.toNat?, parseInactive k, t.toInt? with
-    | some i, some c, some k, some _ => some (.ordx i c k)
+    | some i, some c, some k, some t => some (.ordx i c k t)
     | _, _, _, _ => none
   | "acct" :: rest => (parseAcctItems rest).map fun (bs, os) => .acct bs os
   | _ => none
@@ -130,7 +130,7 @@ def POp.inRange (n : Nat) : POp → Bool
   | .l1 i _ _ => i < n
   | .ord i _ _ => i < n
   | .cancel i _ => i < n
-  | .ordx i _ _ => i < n
+  | .ordx i _ _ _ => i < n
   | .acct bals ords => bals.all (fun am => am.1 < n + 1) && ords.all (fun is => is.1 < n)
 
 def model : Drv St where
@@ -152,7 +152,7 @@ def model : Drv St where
           | .l1 i te x => { s with eng := s.eng.bookL1 i te x }
           | .ord i c o => { s with orders := s.orders.apply i (.snapshot ⟨c, 10, 100, .active (.opn o), 0⟩) }
           | .cancel i c => { s with orders := s.orders.apply i (.recCancel c) }
-          | .ordx i c k => { s with orders := s.orders.apply i (.snapshot (finishedSnap c k)) }
+          | .ordx i c k _ => { s with orders := s.orders.apply i (.snapshot (finishedSnap c k)) }
           | .acct bals ords =>
             { s with eng := s.eng.fullSnapshot bals, orders := s.orders.applySnapshot ords }
         (s', obs s')
@@ -165,8 +165,8 @@ structure SpecSt where
   l1s : List (List (Msg L1))
   l1Poisoned : List Bool
   ords : List (List (Nat × Msg Open))
-  /-- per instrument: the client order ids for which a TERMINAL report was delivered -/
-  fin : List (List Nat)
+  /-- per instrument, finished orders (a TERMINAL report was delivered): client order id and, for a `Cancelled` report, its exchange time -/
+  fin : List (List (Nat × Option Int))
 
 def setOf (vals : List String) : String := "{" ++ "|".intercalate vals ++ "}"
 
@@ -186,19 +186,32 @@ exchange timestamp delivered so far for that order among its open reports (with 
 that timestamp) — or the order is not held. "Not held" is admitted only once the exchange has reported
 the order finished (before that an order with a delivered open report and something left to fill IS
 held); it is NOT admitted to hold OLDER details than delivered, whatever was reported in between. -/
-def specOrdLine (key : String) (ms : List (Msg Open)) (finished : Bool) : String :=
+def specOrdLine (key : String) (ms : List (Msg Open)) (fin : List (Option Int)) : String :=
   match maxTime ms with
   | none => key ++ " none"
-  | some _ =>
+  | some tmax =>
     let vals := (valuesAtMax ms).map fmtOpen
-    key ++ " " ++ setOf (if finished then "none" :: vals else vals)
+    -- a `Cancelled` report is itself a timestamped message about the order: if one with a timestamp
+    -- BEYOND every open report has been delivered (ties are left open), the greatest timestamp delivered says the order is
+    -- gone, and holding any (necessarily older) open details is the roll-back the property forbids
+    let cancelledLatest := fin.any fun t => match t with | some tc => decide (tmax < tc) | none => false
+    if cancelledLatest then key ++ " none"
+    else key ++ " " ++ setOf (if !fin.isEmpty then "none" :: vals else vals)
 
 /-- one order report of a full account snapshot / an `ord` / `ordx` op, as the spec sees it -/
-def specOrder (s : SpecSt) (i : Nat) (sn : Snap) : SpecSt :=
+def specOrder (s : SpecSt) (i : Nat) (sn : Snap) (tTerminal : Option Int := none) : SpecSt :=
   match sn.state with
   | .active (.opn o) => { s with ords := pushAt s.ords i (sn.cid, (o.t, o)) }
-  | .inactive _ => { s with fin := pushAt s.fin i sn.cid }
+  | .inactive k =>
+    { s with fin := pushAt s.fin i (sn.cid, match k with | .cancelled => tTerminal | _ => none) }
   | _ => s
+
+/-- the exchange times of the terminal (`X i c kind t`) items of an `acct` op, in order -/
+def acctTerminalTimes : List String → List Int
+  | "X" :: _ :: _ :: _ :: t :: rest => (t.toInt?.getD 0) :: acctTerminalTimes rest
+  | "B" :: _ :: _ :: _ :: _ :: rest => acctTerminalTimes rest
+  | "O" :: _ :: _ :: _ :: _ :: _ :: rest => acctTerminalTimes rest
+  | _ => []
 
 def specObs (s : SpecSt) : List String :=
   (s.bals.zipIdx.map fun (ms, a) => specLine s!"bal{a}" ms fmtBal true) ++
@@ -207,7 +220,7 @@ def specObs (s : SpecSt) : List String :=
     if s.l1Poisoned[i]?.getD false then none else some (specLine s!"l1{i}" ms fmtL1 true))) ++
   ((s.ords.zipIdx.map fun (ms, i) =>
     cids.map fun c => specOrdLine s!"ord{i}_{c}" ((ms.filter (·.1 == c)).map (·.2))
-      ((s.fin[i]?.getD []).contains c)).flatten)
+      (((s.fin[i]?.getD []).filter (·.1 == c)).map (·.2))).flatten)
 
 def spec : Drv SpecSt where
   init := ⟨0, [], [], [], [], [], []⟩
@@ -234,10 +247,14 @@ def spec : Drv SpecSt where
           | .ord i c o => { s with ords := pushAt s.ords i (c, (o.t, o)) }
           -- a cancel request sent (once or repeatedly) delivers nothing from the exchange
           | .cancel _ _ => s
-          | .ordx i c k => specOrder s i (finishedSnap c k)
+          | .ordx i c k t => specOrder s i (finishedSnap c k) (some t)
           | .acct bals ords =>
             let s1 : SpecSt := { s with bals := bals.foldl (fun b am => pushAt b am.1 am.2) s.bals }
-            ords.foldl (fun st is => specOrder st is.1 is.2) s1
+            -- terminal items take their exchange times from the op line, in order
+            (ords.foldl (fun (acc : SpecSt × List Int) is =>
+              match is.2.state with
+              | .inactive _ => (specOrder acc.1 is.1 is.2 acc.2.head?, acc.2.tail)
+              | _ => (specOrder acc.1 is.1 is.2, acc.2)) (s1, acctTerminalTimes (toks.drop 1))).1
         (s', specObs s')
 
 end BarterModel.Driver.C09
